@@ -276,7 +276,9 @@ class HistoryRun(object):
           # the undo already left numbers of another numeric type behind (C01's drift finding);
           # whatever the redo then computes differently (e.g. summary rows re-keyed) follows from it
           self._find("C03", DRIFT_SIG % "redo", "%s; drift after the undo at %r" % ("; ".join(d2[:2]), drift_mid[:2]), rec)
-        elif drift and all(x.startswith("cell") for x in d2):
+        elif drift:
+          # cells that differ only in int-vs-float after the redo (the stored actions left the conversion out);
+          # summary rows keyed by such a column are then re-created under other ids: same finding
           self._find("C03", DRIFT_SIG % "redo", "%s; drift at %r" % ("; ".join(d2[:2]), drift[:2]), rec)
         else:
           self._find("C03", classify_diff("redo", d2[0], rec), "; ".join(d2[:3]), rec)
